@@ -20,7 +20,8 @@ from typing import Any, Dict, List, Optional, Tuple
 from .core import VERIF_ROOT, Check, Outcome, canon, crash, install_repo_path, ir_hash
 
 FINDINGS_FILE = os.path.join(VERIF_ROOT, "known_findings.json")
-MAX_ROUNDS = 4  # distinct root causes enumerated per shard before giving up
+# distinct root causes enumerated per shard before giving up (tools/seeded.py only needs the first)
+MAX_ROUNDS = int(os.environ.get("KVERIF_MAX_ROUNDS", "4"))
 SAMPLES_KEPT = 6
 
 
